@@ -25,7 +25,8 @@ for p in patches:
             s=json.loads(line[0][len('INNER-SUMMARY '):])
             for f in s['failed'] or []:
                 hits.append('%s @%s'%(f['Key'][:110],f['Pos']))
-        print('%-40s %s'%(os.path.basename(os.path.dirname(p))+'/'+os.path.basename(p), 'DETECTED' if hits else 'missed'))
+        real=[h for h in hits if 'NO-VERDICT' not in h]
+        print('%-40s %s'%(os.path.basename(os.path.dirname(p))+'/'+os.path.basename(p), 'DETECTED' if real else ('no-verdict' if hits else 'missed')))
         for h in hits[:6]: print('      ',h)
     finally:
         shutil.rmtree(tmp,ignore_errors=True)
